@@ -1,8 +1,23 @@
 import Tuc.Model.Faults
 import Tuc.Lemmas.Run
+import Tuc.Props.C10
+import Tuc.Props.C04
 /-!
 # C14 — failures are reported, never swallowed, and never corrupt earlier output
-(first theorems about the write side; the read side and the engines' monotonicity follow)
+
+*Write side* (`deliver`): `deliver_prefix`, `deliver_cut_fails`, `success_complete`,
+`deliver_status`.
+
+*Read side* (`dispatchReadFault`: the reader fails after the reads `segs`):
+* `read_fault_not_ok` — the exit status is not 0, in every mode, except the one-line-at-a-time `-l`
+  when every bound has been served before the fault (the reader is never called again);
+  `read_fault_served` — in that case the run is exactly the fault-free run on any continuation;
+* `read_fault_prefix` — what was delivered is a prefix of the fault-free output on the whole input
+  (`completeRecords_prefix`, `stream_monotone`, `fwdLinesOpen_prefix` are the per-engine parts);
+  `read_fault_prefix_any_segmentation` — also when the fault-free run reads the input in other
+  pieces (`-M`: chunk independence, C04);
+* `failing_record`, `failing_record_fast` — a failing record leaves the complete output of every
+  earlier record in place.
 -/
 namespace Tuc
 
@@ -60,5 +75,442 @@ theorem thenReadError_not_ok (r : Run) : r.thenReadError.status ≠ .ok := by
 theorem thenReadError_out (r : Run) : r.thenReadError.out = r.out := by
   unfold Run.thenReadError
   cases hs : r.status <;> simp
+
+/-! ## read faults -/
+
+/-- whatever follows, what a run has written stays written -/
+theorem Run.seq_out_prefix (a b : Run) : a.out <+: (a.seq b).out := by
+  obtain ⟨ao, as⟩ := a
+  cases as <;> simp [Run.seq]
+
+theorem Run.pre_out_prefix {w : Bytes} {a b : Run} (h : a.out <+: b.out) :
+    (Run.pre w a).out <+: (Run.pre w b).out := by
+  simp only [Run.pre]
+  exact (List.prefix_append_right_inj w).2 h
+
+/-! ### the records that are complete when the reader fails -/
+
+/-- the records terminated within `pre`, by a scan that mirrors `splitRecords` -/
+def completeAux (eol : UInt8) : Bytes → Bytes → List Bytes
+  | _, [] => []
+  | cur, c :: t => if c = eol then cur.reverse :: completeAux eol [] t else completeAux eol (c :: cur) t
+
+theorem completeAux_prefix (eol : UInt8) (pre rest : Bytes) :
+    ∀ cur : Bytes, completeAux eol cur pre <+: splitRecords eol cur (pre ++ rest) := by
+  induction pre with
+  | nil => intro cur; simp [completeAux]
+  | cons c t ih =>
+    intro cur
+    simp only [completeAux, List.cons_append, splitRecords]
+    split
+    · exact (List.prefix_cons_inj _).2 (ih [])
+    · exact ih (c :: cur)
+
+theorem splitRecords_complete (eol : UInt8) : ∀ (pre cur : Bytes) (c : UInt8),
+    pre.getLast? = some c →
+      (c = eol → splitRecords eol cur pre = completeAux eol cur pre) ∧
+      (c ≠ eol → ∃ x, splitRecords eol cur pre = completeAux eol cur pre ++ [x]) := by
+  intro pre
+  induction pre with
+  | nil => intro cur c h; simp at h
+  | cons c0 t ih =>
+    intro cur c h
+    cases t with
+    | nil =>
+      simp only [List.getLast?_singleton, Option.some.injEq] at h
+      subst h
+      constructor
+      · intro hc
+        simp [splitRecords, completeAux, hc]
+      · intro hc
+        simp [splitRecords, completeAux, hc]
+    | cons c1 t' =>
+      rw [List.getLast?_cons_cons] at h
+      have e1 : splitRecords eol cur (c0 :: c1 :: t') =
+          if c0 = eol then cur.reverse :: splitRecords eol [] (c1 :: t')
+          else splitRecords eol (c0 :: cur) (c1 :: t') := rfl
+      have e2 : completeAux eol cur (c0 :: c1 :: t') =
+          if c0 = eol then cur.reverse :: completeAux eol [] (c1 :: t')
+          else completeAux eol (c0 :: cur) (c1 :: t') := rfl
+      rw [e1, e2]
+      by_cases hc0 : c0 = eol
+      · rw [if_pos hc0, if_pos hc0]
+        have := ih [] c h
+        constructor
+        · intro hc; rw [this.1 hc]
+        · intro hc
+          obtain ⟨x, hx⟩ := this.2 hc
+          exact ⟨x, by rw [hx]; simp⟩
+      · rw [if_neg hc0, if_neg hc0]
+        exact ih (c0 :: cur) c h
+
+theorem completeRecords_eq (eol : UInt8) (pre : Bytes) :
+    completeRecords eol pre = completeAux eol [] pre := by
+  unfold completeRecords
+  simp only
+  cases h : pre.getLast? with
+  | none =>
+    have : pre = [] := List.getLast?_eq_none_iff.1 h
+    subst this
+    simp [splitRecords, completeAux]
+  | some c =>
+    have := splitRecords_complete eol pre [] c h
+    simp only
+    split
+    · rename_i hc; exact this.1 hc
+    · rename_i hc
+      obtain ⟨x, hx⟩ := this.2 hc
+      rw [hx, List.dropLast_concat]
+
+/-- the records complete when the reader fails are the first records of the whole input -/
+theorem completeRecords_prefix (eol : UInt8) (pre rest : Bytes) :
+    completeRecords eol pre <+: records eol (pre ++ rest) := by
+  rw [completeRecords_eq]
+  exact completeAux_prefix eol pre rest []
+
+/-- a run over the first records is the first part of the run over all of them -/
+theorem cutRecords_prefix (o : Opt) (rs rs' : List Bytes) (h : rs <+: rs') :
+    (cutRecords o rs [] []).out <+: (cutRecords o rs' [] []).out := by
+  obtain ⟨more, rfl⟩ := h
+  rw [cutRecords_append]
+  exact Run.seq_out_prefix _ _
+
+theorem fastRecords_prefix (fo : FastOpt) (lif : Side) (rs rs' : List Bytes) (h : rs <+: rs') :
+    (fastRecords fo lif rs []).out <+: (fastRecords fo lif rs' []).out := by
+  obtain ⟨more, rfl⟩ := h
+  rw [fastRecords_append]
+  exact Run.seq_out_prefix _ _
+
+/-! ### `-M` -/
+
+/-- the run over `l ++ l'` is the open run over `l`, then the run over `l'` from the state reached -/
+theorem streamRun_append_open (o : StreamOpt) :
+    ∀ (l l' : List (UInt8 × Bool)) (st : SState),
+      streamRun o st (l ++ l') =
+        (streamRunOpen o st l).1.seq (streamRun o (streamRunOpen o st l).2 l') := by
+  intro l
+  induction l with
+  | nil => intro l' st; simp [streamRunOpen]
+  | cons x t ih =>
+    intro l' st
+    obtain ⟨c, last⟩ := x
+    simp only [List.cons_append, streamRun, streamRunOpen]
+    cases hs : (streamStep o st c last).1.status with
+    | ok =>
+      simp only
+      rw [ih, Run.seq_assoc]
+    | fail =>
+      simp only
+      rw [Run.seq_of_not_ok _ _ (by rw [hs]; simp), Run.seq_of_not_ok _ _ (by rw [hs]; simp)]
+    | panic =>
+      simp only
+      rw [Run.seq_of_not_ok _ _ (by rw [hs]; simp), Run.seq_of_not_ok _ _ (by rw [hs]; simp)]
+    | hang =>
+      simp only
+      rw [Run.seq_of_not_ok _ _ (by rw [hs]; simp), Run.seq_of_not_ok _ _ (by rw [hs]; simp)]
+
+theorem tagSegments_append' (xs ys : List Bytes) :
+    tagSegments (xs ++ ys) = tagSegments xs ++ tagSegments ys := by
+  simp [tagSegments]
+
+/-- **`-M` is monotone**: what has been written when the reader fails after the reads `segsPre`
+    is the beginning of what is written when it goes on with `segsRest` -/
+theorem stream_monotone (so : StreamOpt) (segsPre segsRest : List Bytes) :
+    (streamRunOpen so {} (tagSegments segsPre)).1.out <+:
+      (cutBytesStream so (segsPre ++ segsRest)).out := by
+  unfold cutBytesStream
+  rw [tagSegments_append', streamRun_append_open]
+  exact Run.seq_out_prefix _ _
+
+/-! ### `-l`, one line at a time -/
+
+/-- all bounds served before the fault: the run is the fault-free run, whatever would have
+    followed -/
+theorem fwdLinesOpen_done (o : Opt) : ∀ (ls : List Bytes) (idx : Int) (rest : List BoF) (a : Bool)
+    (r : Run) (more : List Bytes), fwdLinesOpen o ls idx rest a = (r, true) →
+      fwdLines o (ls ++ more) idx rest a = r ∧ r.status = .ok := by
+  intro ls
+  induction ls with
+  | nil => intro idx rest a r more h; simp [fwdLinesOpen] at h
+  | cons line t ih =>
+    intro idx rest a r more h
+    simp only [fwdLinesOpen] at h
+    simp only [List.cons_append, fwdLines]
+    split at h
+    · simp at h
+    · rename_i hv
+      rw [if_neg hv]
+      split at h
+      · rename_i he
+        rw [if_pos he]
+        simp only [Prod.mk.injEq, and_true] at h
+        subst h
+        exact ⟨rfl, rfl⟩
+      · rename_i he
+        rw [if_neg he]
+        simp only [Prod.mk.injEq] at h
+        obtain ⟨h1, h2⟩ := h
+        have := ih (idx + 1) _ _ _ more (Prod.ext rfl h2)
+        subst h1
+        exact ⟨by rw [this.1], this.2⟩
+
+/-- in any case what was written before the fault is the beginning of the fault-free output -/
+theorem fwdLinesOpen_prefix (o : Opt) : ∀ (ls : List Bytes) (idx : Int) (rest : List BoF) (a : Bool)
+    (more : List Bytes),
+      (fwdLinesOpen o ls idx rest a).1.out <+: (fwdLines o (ls ++ more) idx rest a).out := by
+  intro ls
+  induction ls with
+  | nil => intro idx rest a more; simp [fwdLinesOpen, Run.empty]
+  | cons line t ih =>
+    intro idx rest a more
+    simp only [fwdLinesOpen, List.cons_append, fwdLines]
+    split
+    · exact List.prefix_refl _
+    · split
+      · exact List.prefix_refl _
+      · exact Run.pre_out_prefix (ih _ _ _ more)
+
+/-! ### 1. a read fault is reported -/
+
+/-- **C14, read faults are never swallowed.**  Whatever the mode, when the reader fails the exit
+    status is not 0 — with one exception: `-l` read one line at a time, when every bound had been
+    served by the lines read before the fault; the loop has left by then and the reader is never
+    called again. -/
+theorem read_fault_not_ok (o : Opt) (M : Bool) (segs : List Bytes) (r : Run)
+    (h : dispatchReadFault o M segs = some r) :
+    r.status ≠ .ok ∨
+    (M = false ∧ o.boundsType = .lines ∧
+      (!o.complement && !o.compressDelimiter && isForwardOnly o.bounds.list) = true ∧
+      fwdLinesOpen o (completeRecords o.eol.byte segs.flatten) 0 o.bounds.list false = (r, true)) := by
+  unfold dispatchReadFault at h
+  simp only at h
+  split at h
+  · cases hso : streamOptOf o with
+    | none => simp [hso] at h
+    | some so =>
+      simp only [hso, Option.some.injEq] at h
+      subst h
+      exact Or.inl (thenReadError_not_ok _)
+  · rename_i hM
+    split at h
+    · simp only [Option.some.injEq] at h
+      subst h
+      exact Or.inl (by simp [Run.fail])
+    · split at h
+      · rename_i hlines
+        split at h
+        · rename_i hfw
+          simp only [Option.some.injEq] at h
+          cases hd : (fwdLinesOpen o (completeRecords o.eol.byte segs.flatten) 0 o.bounds.list
+              false).2 with
+          | true =>
+            rw [hd] at h
+            simp only [if_true] at h
+            exact Or.inr ⟨by simpa using hM, hlines, hfw, Prod.ext h hd⟩
+          | false =>
+            rw [hd] at h
+            simp only [Bool.false_eq_true, if_false] at h
+            subst h
+            exact Or.inl (thenReadError_not_ok _)
+        · simp only [Option.some.injEq] at h
+          subst h
+          exact Or.inl (by simp [Run.fail])
+      · cases hfo : fastOptOf o with
+        | some fo =>
+          simp only [hfo, Option.some.injEq] at h
+          subst h
+          exact Or.inl (thenReadError_not_ok _)
+        | none =>
+          simp only [hfo, Option.some.injEq] at h
+          subst h
+          exact Or.inl (thenReadError_not_ok _)
+
+/-- …and in the exceptional case nothing is lost: the run is a success and it is exactly the
+    fault-free run on the input continued in any way (`rest` = what the reader would have gone on
+    to deliver) -/
+theorem read_fault_served (o : Opt) (pre rest : Bytes) (r : Run)
+    (hlines : o.boundsType = .lines)
+    (hfw : (!o.complement && !o.compressDelimiter && isForwardOnly o.bounds.list) = true)
+    (h : fwdLinesOpen o (completeRecords o.eol.byte pre) 0 o.bounds.list false = (r, true)) :
+    r.status = .ok ∧ ∀ segs' : List Bytes, segs'.flatten = pre ++ rest →
+      dispatch o false segs' = some r := by
+  obtain ⟨more, hmore⟩ := completeRecords_prefix o.eol.byte pre rest
+  have := fwdLinesOpen_done o _ _ _ _ r more h
+  refine ⟨this.2, ?_⟩
+  intro segs' hsegs
+  unfold dispatch
+  simp only [Bool.false_eq_true, if_false, hsegs]
+  have hb : ¬ o.boundsType = .bytes := by rw [hlines]; simp
+  rw [if_neg hb, if_pos hlines]
+  unfold readAndCutLines
+  rw [if_pos hfw]
+  unfold cutLinesForwardOnly
+  rw [← hmore, this.1]
+
+/-! ### 2. a read fault never corrupts earlier output -/
+
+/-- **C14, read faults: monotonicity.**  The reader fails after the reads `segsPre`; had it gone on
+    with `segsRest`, the output would have started with exactly the bytes delivered before the
+    fault. -/
+theorem read_fault_prefix (o : Opt) (M : Bool) (segsPre segsRest : List Bytes) (r r' : Run)
+    (h : dispatchReadFault o M segsPre = some r)
+    (h' : dispatch o M (segsPre ++ segsRest) = some r') : r.out <+: r'.out := by
+  unfold dispatchReadFault at h
+  unfold dispatch at h'
+  simp only [List.flatten_append] at h h'
+  split at h
+  · rename_i hM
+    rw [if_pos hM] at h'
+    cases hso : streamOptOf o with
+    | none => simp [hso] at h
+    | some so =>
+      simp only [hso, Option.some.injEq] at h h'
+      subst h h'
+      rw [thenReadError_out]
+      exact stream_monotone so segsPre segsRest
+  · rename_i hM
+    rw [if_neg hM] at h'
+    split at h
+    · simp only [Option.some.injEq] at h
+      subst h
+      exact List.nil_prefix
+    · rename_i hb
+      rw [if_neg hb] at h'
+      split at h
+      · rename_i hlines
+        rw [if_pos hlines] at h'
+        simp only [Option.some.injEq] at h'
+        subst h'
+        split at h
+        · rename_i hfw
+          simp only [Option.some.injEq] at h
+          unfold readAndCutLines
+          rw [if_pos hfw]
+          unfold cutLinesForwardOnly
+          obtain ⟨more, hmore⟩ :=
+            completeRecords_prefix o.eol.byte segsPre.flatten segsRest.flatten
+          rw [← hmore]
+          have hp := fwdLinesOpen_prefix o (completeRecords o.eol.byte segsPre.flatten) 0
+            o.bounds.list false more
+          subst h
+          split
+          · exact hp
+          · rw [thenReadError_out]; exact hp
+        · simp only [Option.some.injEq] at h
+          subst h
+          exact List.nil_prefix
+      · rename_i hlines
+        rw [if_neg hlines] at h'
+        cases hfo : fastOptOf o with
+        | some fo =>
+          simp only [hfo, Option.some.injEq] at h h'
+          subst h h'
+          rw [thenReadError_out]
+          unfold readAndCutFast
+          have heol : fo.eol = o.eol := by
+            unfold fastOptOf at hfo
+            split at hfo
+            · split at hfo
+              · simp at hfo
+              · simp only [Option.some.injEq] at hfo
+                subst hfo; rfl
+            · simp at hfo
+          rw [heol]
+          exact fastRecords_prefix fo _ _ _ (completeRecords_prefix _ _ _)
+        | none =>
+          simp only [hfo, Option.some.injEq] at h h'
+          subst h h'
+          rw [thenReadError_out]
+          unfold readAndCutStr
+          exact cutRecords_prefix o _ _ (completeRecords_prefix _ _ _)
+
+/-- without `-M` only the bytes matter, not how the reads delivered them -/
+theorem dispatch_flatten (o : Opt) (segs segs' : List Bytes) (h : segs.flatten = segs'.flatten) :
+    dispatch o false segs = dispatch o false segs' := by
+  unfold dispatch
+  simp only [h, Bool.false_eq_true, if_false]
+
+/-- the same against the fault-free run on the whole input `pre ++ rest` read in *any* pieces
+    (for bounds that come from the parser: with `-M` this is chunk independence, C04) -/
+theorem read_fault_prefix_any_segmentation (o : Opt) (f : List Char)
+    (hf : boundsListOfString f = .ok o.bounds) (M : Bool) (segsPre segsAll : List Bytes)
+    (rest : Bytes) (hall : segsAll.flatten = segsPre.flatten ++ rest) (r r' : Run)
+    (h : dispatchReadFault o M segsPre = some r) (h' : dispatch o M segsAll = some r') :
+    r.out <+: r'.out := by
+  have hfl : segsAll.flatten = (segsPre ++ [rest]).flatten := by simp [hall]
+  have : dispatch o M segsAll = dispatch o M (segsPre ++ [rest]) := by
+    cases M with
+    | true => exact dispatch_fixedMemory_chunk_independent o f hf _ _ hfl
+    | false => exact dispatch_flatten o _ _ hfl
+  rw [this] at h'
+  exact read_fault_prefix o M segsPre [rest] r r' h h'
+
+/-- a read fault and the fault-free run are rejected up front in the same cases -/
+theorem read_fault_rejected_iff (o : Opt) (M : Bool) (segs segs' : List Bytes) :
+    dispatchReadFault o M segs = none ↔ dispatch o M segs' = none := by
+  unfold dispatchReadFault dispatch
+  simp only
+  split
+  · cases streamOptOf o <;> simp
+  · split
+    · simp
+    · split
+      · split <;> simp
+      · cases fastOptOf o <;> simp
+
+/-! ### 3. a failing record leaves the earlier records' output in place -/
+
+/-- **C14, failing record.**  The output for `A ‖ B`, where `A` ends with an EOL, starts with the
+    complete output for `A` — whether a record of `B` fails or not (and if cutting `A` went well
+    the rest is the output for `B`: C10). -/
+theorem failing_record (o : Opt) (a b : Bytes) :
+    (readAndCutStr o (a ++ [o.eol.byte])).out <+: (readAndCutStr o (a ++ [o.eol.byte] ++ b)).out := by
+  rw [readAndCutStr_append]
+  exact Run.seq_out_prefix _ _
+
+theorem failing_record_fast (fo : FastOpt) (a b : Bytes) :
+    (readAndCutFast fo (a ++ [fo.eol.byte])).out <+:
+      (readAndCutFast fo (a ++ [fo.eol.byte] ++ b)).out := by
+  rw [readAndCutFast_append]
+  exact Run.seq_out_prefix _ _
+
+/-- the failure itself is reported: if a record of `B` fails after `A` went well, the run fails -/
+theorem failing_record_status (o : Opt) (a b : Bytes)
+    (ha : (readAndCutStr o (a ++ [o.eol.byte])).status = .ok) :
+    (readAndCutStr o (a ++ [o.eol.byte] ++ b)).status = (readAndCutStr o b).status ∧
+    (readAndCutStr o (a ++ [o.eol.byte] ++ b)).out =
+      (readAndCutStr o (a ++ [o.eol.byte])).out ++ (readAndCutStr o b).out := by
+  rw [readAndCutStr_append]
+  exact ⟨Run.seq_status_of_ok ha, Run.seq_out_of_ok ha⟩
+
+/-! ### concrete data: `-f 2` over `a⇥b⏎c⏎…` -/
+
+def c14Opt : Opt :=
+  { delimiter := [9], bounds := ⟨[.bound { l := .some 2, r := .some 2, isLast := true }], .some 2⟩ }
+
+/-- the general engine behind the same request (`-g` keeps it off the fast lane) -/
+def c14OptGeneral : Opt := { c14Opt with greedyDelimiter := true }
+
+-- the reader fails after `a⇥b⏎c⇥`: record 1 has been cut, the exit status is 1 …
+example : dispatchReadFault c14Opt false [[97, 9, 98, 10], [99, 9]] = some ⟨[98, 10], .fail⟩ := by
+  decide
+-- … and `b⏎` is the beginning of what the fault-free run on `a⇥b⏎c⇥d⏎` prints
+example : dispatch c14Opt false [[97, 9, 98, 10], [99, 9], [100, 10]] = some ⟨[98, 10, 100, 10], .ok⟩ := by
+  decide
+example : dispatchReadFault c14OptGeneral false [[97, 9, 98, 10], [99, 9]] = some ⟨[98, 10], .fail⟩ := by
+  decide
+example : dispatch c14OptGeneral false [[97, 9, 98, 10, 99, 9, 100, 10]]
+    = some ⟨[98, 10, 100, 10], .ok⟩ := by decide
+-- `-M`: the bytes of field 2 are printed as they arrive
+example : dispatchReadFault c14Opt true [[97, 9, 98, 10], [99, 9, 100]] = some ⟨[98, 10, 100], .fail⟩ := by
+  decide
+example : dispatch c14Opt true [[97, 9, 98, 10], [99, 9, 100], [101, 10]]
+    = some ⟨[98, 10, 100, 101, 10], .ok⟩ := by decide
+-- a failing record: `c⏎` has no field 2; the output of record 1 is complete, the status is 1
+example : readAndCutStr c14OptGeneral [97, 9, 98, 10, 99, 10, 100, 9, 101, 10] = ⟨[98, 10], .fail⟩ := by
+  decide
+example : readAndCutStr c14OptGeneral [97, 9, 98, 10] = ⟨[98, 10], .ok⟩ := by decide
+example : dispatch c14Opt false [[97, 9, 98, 10, 99, 10, 100, 9, 101, 10]] = some ⟨[98, 10], .fail⟩ := by
+  decide
 
 end Tuc
